@@ -10,7 +10,7 @@ from pbt.harness import ALGOS, KARY, Session, algo_label
 
 PROP = "C16"
 RULE = (
-    "cases = all 14 algorithms x partition x seed / injected split outcomes x reward law x an affine map x -> a x + t. The base run "
+    "cases = all 14 algorithms x partition x seed / injected split outcomes x reward law x an affine map x -> a x + t (a > 0 one factor, t a vector: the same shift on every axis or, half of the time in d >= 2, a different one per axis). The base run "
     "is executed on the box D; its reward sequence is then fed, by index, to a second run on the image box a D + t with the same RNG "
     "outcomes (so both runs see the same history). Exact class: a = 2^k, k in -20..20 (exact for every partition and every operation "
     "the code performs) and, for midpoint partitions on boxes with small dyadic end points, translations by dyadic t (all midpoints "
@@ -43,8 +43,14 @@ def name_compares_coordinates(case):
     return a["name"] == "Zooming" or (a["name"] == "DOO" and "delta" not in a["params"])
 
 
+def tvec(t, d):
+    """A translation is a vector: one component per axis (a scalar in older replay files means the same shift on every axis)."""
+    return [float(v) for v in t] if isinstance(t, list) else [float(t)] * d
+
+
 def image_domain(dom, a, t):
-    return [[a * float(lo) + t, a * float(hi) + t] for lo, hi in dom]
+    tv = tvec(t, len(dom))
+    return [[a * float(lo) + tv[k], a * float(hi) + tv[k]] for k, (lo, hi) in enumerate(dom)]
 
 
 def run(case, rewards=None):
@@ -73,19 +79,23 @@ def run(case, rewards=None):
 
 
 def check_case(case):
-    a, t = case["map"]["a"], case["map"]["t"]
+    a = case["map"]["a"]
+    tv = tvec(case["map"]["t"], len(case["domain"]))
+    moved = any(v != 0 for v in tv)
     exact = case["map"]["class"] == "exact"
     classes = ["algo:" + algo_label(case["algo"]), "part:" + case["partition"]["cls"], "class:" + case["map"]["class"],
-               "map:" + ("scale" if t == 0 else ("translate" if a == 1 else "both"))]
+               "map:" + ("scale" if not moved else ("translate" if a == 1 else "both"))]
+    if len(set(tv)) > 1:
+        classes.append("translation-differs-per-axis")
     base = dict(case)
     base.pop("map")
     r1 = run(base)
     img = dict(base)
-    img["domain"] = image_domain(case["domain"], a, t)
+    img["domain"] = image_domain(case["domain"], a, tv)
     if any(not (lo < hi) or not math.isfinite(lo) or not math.isfinite(hi) for lo, hi in img["domain"]):
         return Outcome(aborted="degenerate-image", classes=classes)
     r2 = run(img, rewards=r1["rewards"] + [0.0] * (case["T"] - len(r1["rewards"])))
-    if exact and t != 0:
+    if exact and moved:
         # a translation is exact only while every cell boundary of both trees is representable: bits for the
         # integer part of the larger coordinates + one bit per halving + the bits of the box width must fit
         per_level = math.log2(case["partition"].get("K", 2))
@@ -108,6 +118,7 @@ def check_case(case):
         if not isinstance(x, list) or not isinstance(y, list) or len(x) != len(y):
             return Outcome(violation={"clause": "equivariance", "msg": "round %d: %r vs %r" % (rnd, x, y), "round": rnd}, classes=classes)
         for k, (xi, yi) in enumerate(zip(x, y)):
+            t = tv[k] if k < len(tv) else 0.0
             want = a * float(xi) + t
             invertible = (want - t) / a == float(xi)
             if t != 0 and (sig_bits(float(xi)) > 44 or sig_bits(want) > 44):
@@ -125,7 +136,7 @@ def check_case(case):
                 ok = abs(float(yi) - want) <= 1e-9 * widths[k] + 1e-12 * mags[k]
             if not ok:
                 return Outcome(violation={"clause": "equivariance", "msg": "%s coordinate %d: base %r maps to %r, image run gave %r (a=%r, t=%r)" % (
-                    "recommendation" if rnd == case["T"] + 1 else "round %d" % rnd, k, xi, want, yi, a, t), "round": rnd}, classes=classes)
+                    "recommendation" if rnd == case["T"] + 1 else "round %d" % rnd, k, xi, want, yi, a, tv), "round": rnd}, classes=classes)
     if r1.get("last_error") != r2.get("last_error"):
         return Outcome(violation={"clause": "equivariance", "msg": "get_last_point: %r on the base box, %r on the image" % (
             r1.get("last_error"), r2.get("last_error")), "round": case["T"] + 1}, classes=classes)
@@ -136,7 +147,7 @@ def check_case(case):
         return Outcome(aborted="exception:" + r1["error"].split("@")[0], classes=classes)
     if exact and n_exact:
         classes.append("compared-bit-for-bit")
-    ident = a == 1 and t == 0
+    ident = a == 1 and not moved
     return Outcome(nontrivial=case["T"] >= 20 and r1["splits"] >= 2 and not ident, classes=classes, rounds=2 * case["T"])
 
 
@@ -145,6 +156,15 @@ def _bias_zooming(draw, aspec):
     if aspec["name"] == "Zooming":
         aspec["params"]["nu"] = draw(st.one_of(st.floats(0.5, 10.0), gen.loguniform(0.05, 10.0)))
         aspec["params"]["rho"] = draw(st.one_of(st.floats(0.7, 0.99), st.floats(0.05, 0.99)))
+
+
+@st.composite
+def shift(draw, one, d):
+    """A translation vector: the same amount on every axis, or (half of the time when d >= 2) one amount per
+    axis, some of them zero."""
+    if d >= 2 and draw(st.booleans()):
+        return [0.0 if draw(st.integers(0, 3)) == 0 else draw(one) for _ in range(d)]
+    return [draw(one)] * d
 
 
 @st.composite
@@ -175,9 +195,11 @@ def cases(draw, tier):
             T = min(T, 80)  # keeps DOO's tree shallower than the mantissa: its default delta compares widths
         case = {"algo": aspec, "partition": pspec, "domain": dom, "rng": draw(gen.rngs(script_prob=0.3)), "T": T,
                 "reward": draw(gen.rewards(laws=["peak", "bump", "noise", "ties", "negative"], d=d, T=T))}
-        tt = draw(st.one_of(st.integers(-2 ** 20, 2 ** 20), st.integers(-2 ** 30, 2 ** 30),
-                            st.sampled_from([2 ** 22, 2 ** 24, 2 ** 26, -2 ** 26, 2 ** 29]))) * draw(st.sampled_from([1.0, 0.5, 0.25, 1.0]))
-        case["map"] = {"a": 1.0, "t": float(tt), "class": "exact"}
+        one = st.builds(lambda i, q: float(i * q),
+                        st.one_of(st.integers(-2 ** 20, 2 ** 20), st.integers(-2 ** 30, 2 ** 30),
+                                  st.sampled_from([2 ** 22, 2 ** 24, 2 ** 26, -2 ** 26, 2 ** 29])),
+                        st.sampled_from([1.0, 0.5, 0.25, 1.0]))
+        case["map"] = {"a": 1.0, "t": draw(shift(one, d)), "class": "exact"}
         return case
     case = draw(gen.run_case(names=[name], T_max=150 if quick else 400, n_range=(100, 300) if quick else (100, 600),
                              laws=["peak", "bump", "noise", "ties", "negative", "const"], poo_ok_only=True, gpo_ok_only=True,
@@ -191,7 +213,7 @@ def cases(draw, tier):
             case["domain"] = [[0.0, 1.0] for _ in case["domain"]]
             case["T"] = min(case["T"], 80)
             if case["partition"]["cls"] in MIDPOINT and case["partition"].get("K", 2) in (2, 4):
-                case["map"]["t"] = float(draw(st.integers(-1000, 1000)))
+                case["map"]["t"] = draw(shift(st.integers(-1000, 1000).map(float), len(case["domain"])))
         else:
             # scalings far beyond the unit box as well: an absolute threshold (an epsilon, a unit-box
             # assumption) shows only when the box is that small or that large
@@ -199,7 +221,7 @@ def cases(draw, tier):
                                  st.integers(-1000, 900), st.sampled_from([-545, -560, -700, 600])))
             case["map"] = {"a": 2.0 ** k, "t": 0.0, "class": "exact"}
     else:
-        case["map"] = {"a": draw(st.floats(0.01, 100.0)), "t": draw(st.floats(-1000.0, 1000.0)), "class": "tol"}
+        case["map"] = {"a": draw(st.floats(0.01, 100.0)), "t": draw(shift(st.floats(-1000.0, 1000.0), len(case["domain"]))), "class": "tol"}
     return case
 
 
@@ -213,6 +235,8 @@ def simplify(case):
     if len(case["domain"]) > 1 and case["partition"]["cls"] != "DimensionBinaryPartition":
         c = copy.deepcopy(case)
         c["domain"] = c["domain"][:1]
+        if isinstance(c["map"]["t"], list):
+            c["map"]["t"] = c["map"]["t"][:1]
         yield c
     if case["rng"].get("mode") == "script":
         c = copy.deepcopy(case)
